@@ -2,7 +2,7 @@
    start-never-seen regime, closing flushes and re-opened connections (per-stream accounting).
    An abstract state [gst] (dead / live with the delivery point and the start of the kept bytes,
    or start unknown) follows the events; [gev] says which events are legal and what they carry. *)
-From GP Require Import Base C09Model C09Spec C09Seq C09Proofs C09Stream C09Flush C09Keep C09Send C09Cover.
+From GP Require Import Base C09Model C09Spec C09Seq C09Proofs C09Stream C09Flush C09Keep C09Send C09Cover C09NoNew.
 From Coq Require Import Lia ZifyBool ZifyNat.
 Ltac Zify.zify_post_hook ::= Z.div_mod_to_equations.
 Open Scope Z_scope.
@@ -131,7 +131,10 @@ Definition gev (S : list Z) (c : cfg) (allow syn : bool) (nc : nat) (g : gst) (e
   | EDone _ =>
     (* completion: the data half was ended by FIN/RST, or everything received has been delivered *)
     (exists kn en, g = GLive kn en /\
-       (en = true \/ match kn with Some (_, p) => max_recv R <= p | None => R = [] end)) /\ g' = GDead
+       (en = true \/ match kn with
+                     | Some (_, p) => max_recv R <= p /\ (R = [] \/ p <= max_recv R)
+                     | None => R = []
+                     end)) /\ g' = GDead
   | ESG _ b _ en skip avail saved =>
     exists kn a e', g = GLive kn false /\ 0 <= a /\ a <= e' /\ e' <= zlen S /\
       match kn with
@@ -356,6 +359,75 @@ Lemma assemble_unfold : forall v s0 g,
 Proof. intros. unfold assemble. destruct (s_exists s0); reflexivity. Qed.
 
 (* ---------------------------------------------------------------- the invariant *)
+(* StreamFactory.New is reported first, by a segment that finds no connection in the pool *)
+Lemma asm_queue_body_nonew : forall v s evn tg0 h seq g, nonew tg0 ->
+  exists rest, snd (fst (asm_queue_body v s evn tg0 h seq g)) = evn ++ rest /\ nonew rest.
+Proof.
+  intros v s evn tg0 h seq g Ht. unfold asm_queue_body.
+  set (r := check_overlap v (h_queue h) (g_bytes g) seq (g_ts g) (g_rst g || g_fin g) true).
+  destruct (c2_panic r).
+  { eexists. split; [reflexivity|]. apply nonew_app; [exact Ht|]. apply nonew_app; [apply nonew_tags|reflexivity]. }
+  destruct (limit_hit _ _ _).
+  2:{ eexists. split; [reflexivity|]. apply nonew_app; [exact Ht|apply nonew_tags]. }
+  destruct (c2_queue r) as [|p q'].
+  { eexists. split; [reflexivity|]. apply nonew_app; [exact Ht|apply nonew_tags]. }
+  set (h2 := mkHalf _ _ _ _ _ _). set (u := s_used s - c2_rel r + c2_added r).
+  pose proof (send_st_nonew v s h2 u (CPage p)) as Hs.
+  destruct (send_st v s h2 u (CPage p)) as [[[s1 nx] ev] pk]. cbn [fst snd] in *.
+  eexists. split; [reflexivity|]. apply nonew_app; [exact Ht|]. apply nonew_app; [apply nonew_tags|].
+  change (ETag 12 :: ev) with ([ETag 12] ++ ev). apply nonew_app; [reflexivity|exact Hs].
+Qed.
+
+Lemma asm_inorder_body_nonew : forall v s evn tg0 h seq g, nonew tg0 ->
+  exists rest, snd (fst (asm_inorder_body v s evn tg0 h seq g)) = evn ++ rest /\ nonew rest.
+Proof.
+  intros v s evn tg0 h seq g Ht. unfold asm_inorder_body.
+  destruct (overlap_existing v (h_next h) seq (g_bytes g)) as [[b1 seq1] pk0].
+  destruct pk0.
+  { eexists. split; [reflexivity|]. apply nonew_app; [exact Ht|reflexivity]. }
+  set (r := check_overlap v (h_queue h) b1 seq1 (g_ts g) (g_rst g || g_fin g) false).
+  assert (Htg : nonew (map ETag (c2_tags r) ++
+                       (if (0 <? zlen (g_bytes g)) && (zlen (c2_bytes r) =? 0) then [ETag 11] else []))).
+  { apply nonew_app; [apply nonew_tags|]. destruct ((0 <? zlen (g_bytes g)) && (zlen (c2_bytes r) =? 0)); reflexivity. }
+  destruct (c2_panic r).
+  { eexists. split; [reflexivity|]. apply nonew_app; [exact Ht|]. apply nonew_app; [exact Htg|reflexivity]. }
+  destruct ((0 <? zlen (c2_bytes r)) || (g_rst g || g_fin g) || g_syn g).
+  2:{ eexists. split; [reflexivity|]. apply nonew_app; [exact Ht|exact Htg]. }
+  set (h1 := mkHalf _ _ _ _ _ _). set (lp := CLive _).
+  pose proof (send_st_nonew v s h1 (s_used s - c2_rel r) lp) as Hs.
+  destruct (send_st v s h1 (s_used s - c2_rel r) lp) as [[[s1 nx] ev] pk]. cbn [fst snd] in *.
+  eexists. split; [reflexivity|]. apply nonew_app; [exact Ht|]. apply nonew_app; [exact Htg|exact Hs].
+Qed.
+
+Lemma asm_body_nonew : forall v s evn g,
+  exists rest, snd (fst (asm_body v s evn g)) = evn ++ rest /\ nonew rest.
+Proof.
+  intros v s evn g. unfold asm_body.
+  destruct (h_closed _).
+  { exists []. split; [cbn [fst snd]; rewrite app_nil_r; reflexivity|reflexivity]. }
+  destruct (h_next _ =? INVALID).
+  - destruct (g_syn g).
+    + apply asm_inorder_body_nonew. destruct (h_queue _); reflexivity.
+    + destruct (_ || g_force g); [apply asm_inorder_body_nonew; reflexivity|apply asm_queue_body_nonew; reflexivity].
+  - destruct (diffv v _ _ >? 0); [apply asm_queue_body_nonew; reflexivity|apply asm_inorder_body_nonew; reflexivity].
+Qed.
+
+Lemma step_nonew : forall v st o,
+  let ev := snd (fst (step v st o)) in
+  nonew ev \/ (exists sid rest, ev = ENew sid :: rest /\ nonew rest /\ s_exists st = false /\ exists g, o = OSeg g).
+Proof.
+  intros v st o. destruct o as [a b|k|g|t tc|]; cbn [step].
+  - left; reflexivity.
+  - left; reflexivity.
+  - rewrite assemble_unfold. destruct (s_exists st) eqn:Hex.
+    + left. destruct (asm_body_nonew v st [] g) as (rest & He & Hn). cbn zeta. rewrite He. exact Hn.
+    + right. set (s' := mkSt _ _ _ _ _ _ _ _).
+      destruct (asm_body_nonew v s' [ENew (Datatypes.S (s_sid st))] g) as (rest & He & Hn).
+      exists (Datatypes.S (s_sid st)), rest. cbn zeta. rewrite He. split; [reflexivity|]. split; [exact Hn|]. split; [reflexivity|eauto].
+  - left. apply flush_opts_nonew.
+  - left. apply flush_all_nonew.
+Qed.
+
 Definition half_ok (S : list Z) (i : Z) (kn : option (Z * Z)) (h : half) : Prop :=
   h_closed h = false /\ qok S i (lo_of kn) HIS (h_queue h) /\
   match kn with
@@ -824,7 +896,7 @@ Lemma close_c2s_gen : forall S i c syn nc st kn,
   ginv c S i R (GLive kn false) st -> h_queue (s_half st) = [] ->
   exists st' ev gm g', close_c2s fullv st = (st', ev) /\ gevs S c true syn nc (GLive kn false) ev gm /\
     gclosed gm g' /\ ginv c S i R g' st' /\ nsg ev = O /\ s_ncalls st' = s_ncalls st /\
-    h_closed (s_half st') = true /\ (exists kn' en, g' = GLive kn' en -> en = true).
+    h_closed (s_half st') = true /\ (s_rev_closed st = true -> gm = g').
 Proof.
   intros S i c syn nc st kn (Hcfg & Hex & Hcl & Hop & _) Hq0.
   destruct (Hop eq_refl) as (Hh & Hrc). rewrite Hq0 in Hrc. pose proof (rcv_empty S i kn Hrc) as Hemp.
@@ -832,32 +904,34 @@ Proof.
   - eexists. eexists. exists GDead, GDead. split; [reflexivity|]. split.
     + cbn [gevs]. exists GDead. split; [|reflexivity]. cbn [gev]. split; [|reflexivity].
       exists kn, false. split; [reflexivity|]. right.
-      destruct kn as [(A, p)|]; [|exact Hemp]. apply Hemp.
+      destruct kn as [(A, p)|]; [|exact Hemp]. split; [|destruct Hrc as (_ & _ & _ & _ & I3); exact I3]. apply Hemp.
       destruct Hh as (_ & _ & _ & HA & _ & Hs). apply sok_range in Hs. lia.
     + split; [apply gclosed_refl|]. split; [unfold ginv; cbn [s_cfg s_exists]; auto|].
-      split; [reflexivity|]. split; [reflexivity|]. split; [reflexivity|]. exists None, true. intros Hc; discriminate.
+      split; [reflexivity|]. split; [reflexivity|]. split; [reflexivity|]. intros _; reflexivity.
   - eexists. eexists. exists (GLive kn false), (GLive kn true). split; [reflexivity|]. split; [reflexivity|].
     split; [right; eauto|]. split.
     + unfold ginv. cbn [s_cfg s_exists s_half h_closed]. split; [exact Hcfg|]. split; [exact Hex|].
       split; [reflexivity|]. cbn [s_rev_closed]. split; [intros Hc; discriminate|intros _; reflexivity].
-    + split; [reflexivity|]. split; [reflexivity|]. split; [reflexivity|]. exists kn, true. reflexivity.
+    + split; [reflexivity|]. split; [reflexivity|]. split; [reflexivity|]. intros Hc; discriminate.
 Qed.
 
 Lemma skip_flush_gen : forall S i c syn st kn,
   zlen S < HIS -> ginv c S i R (GLive kn false) st ->
   exists st' ev gm g', skip_flush fullv st = (st', ev, false) /\
     gevs S c true syn (s_ncalls st) (GLive kn false) ev gm /\ gclosed gm g' /\ ginv c S i R g' st' /\
-    s_ncalls st' = (s_ncalls st + nsg ev)%nat /\ stopped g' st'.
+    s_ncalls st' = (s_ncalls st + nsg ev)%nat /\ stopped g' st' /\
+    (h_queue (s_half st) <> [] \/ s_rev_closed st = true -> gm = g').
 Proof.
   intros S i c syn st kn HS Hinv. pose proof Hinv as (Hcfg & Hex & Hcl & Hopen & _).
   destruct (Hopen eq_refl) as (Hopen' & Hrc). clear Hopen. rename Hopen' into Hopen. pose proof Hopen as (_ & Hq & Hkn).
   unfold skip_flush. destruct (h_queue (s_half st)) as [|p1 q'] eqn:Eq.
   - destruct (close_c2s_gen S i c syn (s_ncalls st) st kn Hinv Eq)
-      as (st' & ev & gm & g' & He & Hg & Hgc & Hi & Hn & Hnc & Hclosed & _).
+      as (st' & ev & gm & g' & He & Hg & Hgc & Hi & Hn & Hnc & Hclosed & Hns).
     rewrite He. exists st', ev, gm, g'. split; [reflexivity|]. split; [exact Hg|]. split; [exact Hgc|]. split; [exact Hi|].
-    split; [rewrite Hn, Hnc; lia|].
-    unfold stopped. destruct g' as [|kn' [|]]; try exact Hclosed.
-    destruct Hi as (_ & _ & Hc' & _). congruence.
+    split; [rewrite Hn, Hnc; lia|]. split.
+    + unfold stopped. destruct g' as [|kn' [|]]; try exact Hclosed.
+      destruct Hi as (_ & _ & Hc' & _). congruence.
+    + intros [Hne|Hrc']; [contradiction|apply Hns; exact Hrc'].
   - cbn [qok] in Hq. destruct Hq as (o1 & Ho1 & Ho1e & Hpg & Hq1').
 
     destruct (first_page_facts S i kn p1 q' o1 HS Hrc Hpg Ho1 Hq1' Ho1e) as (F1 & F2 & F3 & F4 & F5 & F6).
@@ -884,38 +958,41 @@ Proof.
         exists A'. split; [exact Hk|]. intros Hen. destruct (H3 Hen) as (_ & HA & Hs & Hqq & _ & Hrc'). auto 10.
       * split.
         -- cbn [set_half s_ncalls]. rewrite Hnc. unfold nsg in *. cbn [filter is_sg]. lia.
-        -- unfold stopped. cbn [set_half s_half set_next h_closed].
+        -- split; [|intros _; reflexivity].
+           unfold stopped. cbn [set_half s_half set_next h_closed].
            destruct g' as [|kn' [|]]; try exact I.
            ++ exact (proj2 Hpost).
            ++ destruct Hpost as (_ & H2 & _). exact H2.
 Qed.
 
 (* any number of skipFlush rounds: the loops of flushClose and FlushAll *)
-Inductive flush_res (S : list Z) (i : Z) (c : cfg) (syn : bool) (nc : nat) (g : gst) (r : st * list event * bool) : Prop :=
+(* ns: a condition under which the data half is not closed without completing the stream *)
+Inductive flush_res (ns : Prop) (S : list Z) (i : Z) (c : cfg) (syn : bool) (nc : nat) (g : gst) (r : st * list event * bool) : Prop :=
 | FlushRes : forall st' ev gm g',
     r = (st', ev, false) -> gevs S c true syn nc g ev gm -> gclosed gm g' -> ginv c S i R g' st' ->
-    s_ncalls st' = (nc + nsg ev)%nat -> stopped g' st' -> flush_res S i c syn nc g r.
+    s_ncalls st' = (nc + nsg ev)%nat -> stopped g' st' -> (ns -> gm = g') -> flush_res ns S i c syn nc g r.
 
-Lemma flush_res_nil : forall S i c syn g st, ginv c S i R g st -> stopped g st ->
-  flush_res S i c syn (s_ncalls st) g (st, [], false).
+Lemma flush_res_nil : forall ns S i c syn g st, ginv c S i R g st -> stopped g st ->
+  flush_res ns S i c syn (s_ncalls st) g (st, [], false).
 Proof.
-  intros. econstructor; [reflexivity|reflexivity|apply gclosed_refl|eassumption| |assumption].
+  intros. econstructor; [reflexivity|reflexivity|apply gclosed_refl|eassumption| |assumption|intros _; reflexivity].
   unfold nsg. cbn. lia.
 Qed.
 
 Lemma fc_loop_gen : forall S i c syn t fuel st kn,
   zlen S < HIS -> ginv c S i R (GLive kn false) st ->
-  flush_res S i c syn (s_ncalls st) (GLive kn false) (fc_loop fuel fullv st t).
+  flush_res True S i c syn (s_ncalls st) (GLive kn false) (fc_loop fuel fullv st t).
 Proof.
   intros S i c syn t. induction fuel as [|f IH]; intros st kn HS Hinv.
   - cbn [fc_loop]. apply flush_res_nil; [exact Hinv|exact I].
   - cbn [fc_loop].
     destruct (h_queue (s_half st)) as [|p q'] eqn:Eq; [apply flush_res_nil; [exact Hinv|exact I]|].
     destruct (pseen p <? t); [|apply flush_res_nil; [exact Hinv|exact I]].
-    destruct (skip_flush_gen S i c syn st kn HS Hinv) as (s1 & ev1 & gm & g1 & He & Hg & Hgc & Hi & Hnc & Hst).
+    destruct (skip_flush_gen S i c syn st kn HS Hinv) as (s1 & ev1 & gm & g1 & He & Hg & Hgc & Hi & Hnc & Hst & Hns).
+    assert (Hgm : gm = g1) by (apply Hns; left; rewrite Eq; discriminate).
     rewrite He.
     destruct (h_closed (s_half s1)) eqn:Hcl1.
-    + econstructor; [reflexivity|exact Hg|exact Hgc|exact Hi|exact Hnc|exact Hst].
+    + econstructor; [reflexivity|exact Hg|exact Hgc|exact Hi|exact Hnc|exact Hst|intros _; exact Hgm].
     + (* still open: the abstract state is live and open, and nothing was closed silently *)
       destruct g1 as [|kn1 [|]].
       * unfold stopped in Hst. congruence.
@@ -923,8 +1000,8 @@ Proof.
       * assert (gm = GLive kn1 false).
         { destruct Hgc as [Hgc|(k & _ & Hgc)]; [symmetry; exact Hgc|discriminate]. }
         subst gm.
-        destruct (IH s1 kn1 HS Hi) as [s2 ev2 gm2 g2 He2 Hg2 Hgc2 Hi2 Hnc2 Hst2].
-        rewrite He2. econstructor; [reflexivity| |exact Hgc2|exact Hi2| |exact Hst2].
+        destruct (IH s1 kn1 HS Hi) as [s2 ev2 gm2 g2 He2 Hg2 Hgc2 Hi2 Hnc2 Hst2 Hns2].
+        rewrite He2. econstructor; [reflexivity| |exact Hgc2|exact Hi2| |exact Hst2|exact Hns2].
         -- eapply gevs_app; [exact Hg|]. rewrite <- Hnc. exact Hg2.
         -- rewrite Hnc2, Hnc, nsg_app. lia.
 Qed.
@@ -934,80 +1011,91 @@ Proof. intros c S i kn en st (_ & _ & H & _). unfold stopped. destruct en; [exac
 
 Lemma flush_close_c2s_gen : forall S i c syn t tc st g,
   zlen S < HIS -> ginv c S i R g st -> stopped g st ->
-  flush_res S i c syn (s_ncalls st) g (flush_close_c2s fullv st t tc).
+  flush_res (s_rev_closed st = true \/ (conn_last_seen st <? tc) = false) S i c syn (s_ncalls st) g
+            (flush_close_c2s fullv st t tc).
 Proof.
   intros S i c syn t tc st g HS Hinv Hst. unfold flush_close_c2s.
   destruct (h_closed (s_half st)) eqn:Hcl; [apply flush_res_nil; assumption|].
   destruct g as [|kn [|]]; try (unfold stopped in Hst; congruence).
+  pose proof (fc_loop_facts fullv (Datatypes.S (length (h_queue (s_half st)))) st t) as (K1 & K2 & K3).
   destruct (fc_loop_gen S i c syn t (Datatypes.S (length (h_queue (s_half st)))) st kn HS Hinv)
-    as [s1 ev1 gm1 g1 He Hg Hgc Hi Hnc Hst1].
-  rewrite He.
+    as [s1 ev1 gm1 g1 He Hg Hgc Hi Hnc Hst1 Hns1].
+  rewrite He in K1, K2, K3. cbn [fst] in K1, K2, K3.
+  rewrite He. specialize (Hns1 I).
   destruct (h_closed (s_half s1)) eqn:Hcl1.
-  { econstructor; [reflexivity|exact Hg|exact Hgc|exact Hi|exact Hnc|exact Hst1]. }
+  { econstructor; [reflexivity|exact Hg|exact Hgc|exact Hi|exact Hnc|exact Hst1|intros _; exact Hns1]. }
   destruct (h_queue (s_half s1)) eqn:Eq1.
-  2:{ econstructor; [reflexivity|exact Hg|exact Hgc|exact Hi|exact Hnc|exact Hst1]. }
-  destruct (conn_last_seen s1 <? tc).
-  2:{ econstructor; [reflexivity|exact Hg|exact Hgc|exact Hi|exact Hnc|exact Hst1]. }
+  2:{ econstructor; [reflexivity|exact Hg|exact Hgc|exact Hi|exact Hnc|exact Hst1|intros _; exact Hns1]. }
+  destruct (conn_last_seen s1 <? tc) eqn:Els.
+  2:{ econstructor; [reflexivity|exact Hg|exact Hgc|exact Hi|exact Hnc|exact Hst1|intros _; exact Hns1]. }
   destruct g1 as [|kn1 [|]]; try (unfold stopped in Hst1; congruence).
   assert (gm1 = GLive kn1 false).
   { destruct Hgc as [Hgc|(k & _ & Hgc)]; [symmetry; exact Hgc|discriminate]. }
   subst gm1.
   destruct (close_c2s_gen S i c syn (s_ncalls s1) s1 kn1 Hi Eq1)
-    as (s2 & ev2 & gm2 & g2 & He2 & Hg2 & Hgc2 & Hi2 & Hn2 & Hnc2 & Hclosed2 & _).
-  rewrite He2. econstructor; [reflexivity| |exact Hgc2|exact Hi2| |].
+    as (s2 & ev2 & gm2 & g2 & He2 & Hg2 & Hgc2 & Hi2 & Hn2 & Hnc2 & Hclosed2 & Hns2).
+  rewrite He2. econstructor; [reflexivity| |exact Hgc2|exact Hi2| | |].
   - eapply gevs_app; [exact Hg|]. rewrite <- Hnc. exact Hg2.
   - rewrite Hnc2, Hnc, nsg_app, Hn2. lia.
   - unfold stopped. destruct g2 as [|kn2 [|]]; try exact Hclosed2.
     destruct Hi2 as (_ & _ & Hc' & _). congruence.
+  - (* the timestamps and the reverse half are as before the loop: the half is closed only when the
+       reverse half was closed *)
+    intros Hns. apply Hns2. rewrite K1.
+    destruct Hns as [Hrc|Hls]; [exact Hrc|exfalso].
+    unfold conn_last_seen in Els, Hls. rewrite K2, K3 in Els. congruence.
 Qed.
 
 Lemma close_rev_gen : forall S i c syn nc st kn en,
   ginv c S i R (GLive kn en) st ->
   exists st' ev g', close_rev st = (st', ev) /\ gevs S c true syn nc (GLive kn en) ev g' /\
-    ginv c S i R g' st' /\ nsg ev = O /\ s_ncalls st' = s_ncalls st /\ stopped g' st'.
+    ginv c S i R g' st' /\ nsg ev = O /\ s_ncalls st' = s_ncalls st /\ stopped g' st' /\ s_rev_closed st' = true.
 Proof.
   intros S i c syn nc st kn en (Hcfg & Hex & Hcl & Hop & Hrv). unfold close_rev. rewrite Hcl.
   destruct en.
   - eexists. eexists. exists GDead. split; [reflexivity|]. split.
     + cbn [gevs]. exists GDead. split; [cbn [gev]; split; [eauto 6|reflexivity]|reflexivity].
     + split; [unfold ginv; cbn [s_cfg s_exists]; auto|]. split; [reflexivity|]. split; [reflexivity|].
-      unfold stopped. cbn [s_half]. exact Hcl.
+      split; [|reflexivity]. unfold stopped. cbn [s_half]. exact Hcl.
   - eexists. eexists. exists (GLive kn false). split; [reflexivity|]. split; [reflexivity|]. split.
     + unfold ginv. cbn [s_cfg s_exists s_half s_rev_closed]. split; [exact Hcfg|]. split; [exact Hex|]. split; [exact Hcl|].
       split; [exact Hop|intros Hc; discriminate].
-    + split; [reflexivity|]. split; [reflexivity|exact I].
+    + split; [reflexivity|]. split; [reflexivity|]. split; [exact I|reflexivity].
 Qed.
 
-Lemma flush_res_trans : forall S i c syn nc g ev1 g1 st1 r,
+Lemma flush_res_trans : forall ns S i c syn nc g ev1 g1 st1 r,
   gevs S c true syn nc g ev1 g1 -> s_ncalls st1 = (nc + nsg ev1)%nat ->
-  flush_res S i c syn (s_ncalls st1) g1 r ->
-  flush_res S i c syn nc g (let '(s2, ev2, pk) := r in (s2, ev1 ++ ev2, pk)).
+  flush_res ns S i c syn (s_ncalls st1) g1 r ->
+  flush_res ns S i c syn nc g (let '(s2, ev2, pk) := r in (s2, ev1 ++ ev2, pk)).
 Proof.
-  intros S i c syn nc g ev1 g1 st1 r Hg Hnc [s2 ev2 gm2 g2 He2 Hg2 Hgc2 Hi2 Hnc2 Hst2]. subst r.
-  econstructor; [reflexivity| |exact Hgc2|exact Hi2| |exact Hst2].
+  intros ns S i c syn nc g ev1 g1 st1 r Hg Hnc [s2 ev2 gm2 g2 He2 Hg2 Hgc2 Hi2 Hnc2 Hst2 Hns2]. subst r.
+  econstructor; [reflexivity| |exact Hgc2|exact Hi2| |exact Hst2|exact Hns2].
   - eapply gevs_app; [exact Hg|]. rewrite <- Hnc. exact Hg2.
   - rewrite Hnc2, Hnc, nsg_app. lia.
 Qed.
 
 (* the result of an operation: events legal from g, possibly a silent close, the invariant again *)
-Inductive step_res (S : list Z) (i : Z) (c : cfg) (allow syn : bool) (nc : nat) (g : gst) (r : st * list event * bool) : Prop :=
+Inductive step_res (ns : Prop) (S : list Z) (i : Z) (c : cfg) (allow syn : bool) (nc : nat) (g : gst) (r : st * list event * bool) : Prop :=
 | StepRes : forall st' ev gm g',
     r = (st', ev, false) -> gevs S c allow syn nc g ev gm -> gclosed gm g' -> ginv c S i R g' st' ->
-    s_ncalls st' = (nc + nsg ev)%nat -> step_res S i c allow syn nc g r.
+    s_ncalls st' = (nc + nsg ev)%nat -> (ns -> gm = g') -> step_res ns S i c allow syn nc g r.
 
-Lemma flush_step : forall S i c syn nc g r, flush_res S i c syn nc g r -> step_res S i c true syn nc g r.
-Proof. intros S i c syn nc g r [st' ev gm g' H1 H2 H3 H4 H5 _]. econstructor; eauto. Qed.
+Lemma flush_step : forall ns S i c syn nc g r, flush_res ns S i c syn nc g r -> step_res ns S i c true syn nc g r.
+Proof. intros ns S i c syn nc g r [st' ev gm g' H1 H2 H3 H4 H5 _ H7]. econstructor; eauto. Qed.
 
-Lemma step_res_nil : forall S i c allow syn g st, ginv c S i R g st -> step_res S i c allow syn (s_ncalls st) g (st, [], false).
+Lemma step_res_nil : forall ns S i c allow syn g st, ginv c S i R g st -> step_res ns S i c allow syn (s_ncalls st) g (st, [], false).
 Proof.
-  intros. econstructor; [reflexivity|reflexivity|apply gclosed_refl|eassumption|].
+  intros. econstructor; [reflexivity|reflexivity|apply gclosed_refl|eassumption| |intros _; reflexivity].
   unfold nsg. cbn. lia.
 Qed.
+
+Lemma flush_res_weaken : forall (ns ns' : Prop) S i c syn nc g r, (ns' -> ns) -> flush_res ns S i c syn nc g r -> flush_res ns' S i c syn nc g r.
+Proof. intros ns ns' S i c syn nc g r H [st' ev gm g' H1 H2 H3 H4 H5 H6 H7]. econstructor; eauto. Qed.
 
 (* FlushWithOptions / FlushCloseOlderThan *)
 Lemma flush_opts_gen : forall S i c syn t tc st g,
   zlen S < HIS -> ginv c S i R g st ->
-  step_res S i c true syn (s_ncalls st) g (flush_opts fullv st t tc).
+  step_res True S i c true syn (s_ncalls st) g (flush_opts fullv st t tc).
 Proof.
   intros S i c syn t tc st g HS Hinv. unfold flush_opts.
   destruct g as [|kn en].
@@ -1015,47 +1103,49 @@ Proof.
   - pose proof Hinv as (Hcfg & Hex & Hcl & Hop & _). rewrite Hex. cbn [negb].
     apply flush_step.
     unfold flush_close_rev.
-    destruct (s_rev_closed st).
+    destruct (s_rev_closed st) eqn:Erc.
     { change (let '(s2, ev2, pk) := flush_close_c2s fullv st t tc in (s2, [] ++ ev2, pk))
         with (let '(s2, ev2, pk) := flush_close_c2s fullv st t tc in (s2, ev2, pk)).
       pose proof (flush_close_c2s_gen S i c syn t tc st (GLive kn en) HS Hinv (ginv_stopped _ _ _ _ _ _ Hinv)) as Hr.
+      apply (flush_res_weaken _ True) in Hr; [|intros _; left; exact Erc].
       destruct (flush_close_c2s fullv st t tc) as [[s2 ev2] pk]. exact Hr. }
-    destruct (conn_last_seen st <? tc).
+    destruct (conn_last_seen st <? tc) eqn:Els.
     2:{ pose proof (flush_close_c2s_gen S i c syn t tc st (GLive kn en) HS Hinv (ginv_stopped _ _ _ _ _ _ Hinv)) as Hr.
+        apply (flush_res_weaken _ True) in Hr; [|intros _; right; exact Els].
         destruct (flush_close_c2s fullv st t tc) as [[s2 ev2] pk]. exact Hr. }
-    destruct (close_rev_gen S i c syn (s_ncalls st) st kn en Hinv) as (s1 & ev1 & g1 & He & Hg & Hi & Hn & Hnc & Hst).
+    destruct (close_rev_gen S i c syn (s_ncalls st) st kn en Hinv) as (s1 & ev1 & g1 & He & Hg & Hi & Hn & Hnc & Hst & Hrc1).
     rewrite He.
-    apply (flush_res_trans S i c syn (s_ncalls st) (GLive kn en) ev1 g1 s1); [exact Hg|rewrite Hnc, Hn; lia|].
-    apply flush_close_c2s_gen; assumption.
+    apply (flush_res_trans True S i c syn (s_ncalls st) (GLive kn en) ev1 g1 s1); [exact Hg|rewrite Hnc, Hn; lia|].
+    eapply flush_res_weaken; [|apply flush_close_c2s_gen; assumption]. intros _. left. exact Hrc1.
 Qed.
 
 (* FlushAll *)
 Lemma fa_loop_gen : forall S i c syn fuel st g,
   zlen S < HIS -> ginv c S i R g st -> stopped g st ->
-  flush_res S i c syn (s_ncalls st) g (fa_loop fuel fullv st).
+  flush_res False S i c syn (s_ncalls st) g (fa_loop fuel fullv st).
 Proof.
   intros S i c syn. induction fuel as [|f IH]; intros st g HS Hinv Hst.
   - cbn [fa_loop]. apply flush_res_nil; assumption.
   - cbn [fa_loop].
     destruct (h_closed (s_half st)) eqn:Hcl; [apply flush_res_nil; assumption|].
     destruct g as [|kn [|]]; try (unfold stopped in Hst; congruence).
-    destruct (skip_flush_gen S i c syn st kn HS Hinv) as (s1 & ev1 & gm & g1 & He & Hg & Hgc & Hi & Hnc & Hst1).
+    destruct (skip_flush_gen S i c syn st kn HS Hinv) as (s1 & ev1 & gm & g1 & He & Hg & Hgc & Hi & Hnc & Hst1 & _).
     rewrite He.
     destruct Hgc as [Hgc|(k & Hgm & Hg1)].
     + subst g1.
-      apply (flush_res_trans S i c syn (s_ncalls st) (GLive kn false) ev1 gm s1); [exact Hg|exact Hnc|].
+      apply (flush_res_trans False S i c syn (s_ncalls st) (GLive kn false) ev1 gm s1); [exact Hg|exact Hnc|].
       apply IH; assumption.
     + (* closed silently: the loop stops at the next test *)
       subst gm g1. unfold stopped in Hst1.
       assert (Hstop : fa_loop f fullv s1 = (s1, [], false)).
       { destruct f as [|f']; cbn [fa_loop]; [reflexivity|]. rewrite Hst1. reflexivity. }
       rewrite Hstop. rewrite app_nil_r.
-      econstructor; [reflexivity|exact Hg|right; eauto|exact Hi|exact Hnc|exact Hst1].
+      econstructor; [reflexivity|exact Hg|right; eauto|exact Hi|exact Hnc|exact Hst1|intros []].
 Qed.
 
 Lemma flush_all_gen : forall S i c syn st g,
   zlen S < HIS -> ginv c S i R g st ->
-  step_res S i c true syn (s_ncalls st) g (flush_all fullv st).
+  step_res False S i c true syn (s_ncalls st) g (flush_all fullv st).
 Proof.
   intros S i c syn st g HS Hinv. unfold flush_all.
   destruct g as [|kn en].
@@ -1066,9 +1156,9 @@ Proof.
     { pose proof (fa_loop_gen S i c syn (Datatypes.S (Datatypes.S (length (h_queue (s_half st))))) st (GLive kn en) HS Hinv
                     (ginv_stopped _ _ _ _ _ _ Hinv)) as Hr.
       destruct (fa_loop _ fullv st) as [[s2 ev2] pk]. exact Hr. }
-    destruct (close_rev_gen S i c syn (s_ncalls st) st kn en Hinv) as (s1 & ev1 & g1 & He & Hg & Hi & Hn & Hnc & Hst).
+    destruct (close_rev_gen S i c syn (s_ncalls st) st kn en Hinv) as (s1 & ev1 & g1 & He & Hg & Hi & Hn & Hnc & Hst & _).
     rewrite He.
-    apply (flush_res_trans S i c syn (s_ncalls st) (GLive kn en) ev1 g1 s1); [exact Hg|rewrite Hnc, Hn; lia|].
+    apply (flush_res_trans False S i c syn (s_ncalls st) (GLive kn en) ev1 g1 s1); [exact Hg|rewrite Hnc, Hn; lia|].
     apply fa_loop_gen; assumption.
 Qed.
 
@@ -1117,16 +1207,16 @@ Proof. intros [|[kn|] [|]]; reflexivity. Qed.
 
 Lemma hop_step : forall S i c st g h R0,
   zlen S < HIS -> ginv c S i R0 g st -> hop_okb S h = true ->
-  step_res (rstep g R0 h) S i (cfg_after c h) (allow_of (cfg_after c h) h) (syn_of h) (s_ncalls st) (gnote g (syn_of h))
+  step_res (rstep g R0 h) True S i (cfg_after c h) (allow_of (cfg_after c h) h) (syn_of h) (s_ncalls st) (gnote g (syn_of h))
            (step fullv st (op_of S i h)).
 Proof.
   intros S i c st g h R0 HS Hinv Hok.
   destruct h as [a b|k|n ts|o n fin rst ts|t tc|]; cbn [op_of step cfg_after syn_of allow_of is_seg negb orb rstep].
   - rewrite gnote_false.
-    econstructor; [reflexivity|reflexivity|apply gclosed_refl| |cbn [s_ncalls nsg filter length]; lia].
+    econstructor; [reflexivity|reflexivity|apply gclosed_refl| |cbn [s_ncalls nsg filter length]; lia|intros _; reflexivity].
     destruct Hinv as (Hcfg & Hg). unfold ginv. cbn [s_cfg s_exists s_half]. rewrite Hcfg. split; [reflexivity|exact Hg].
   - rewrite gnote_false.
-    econstructor; [reflexivity|reflexivity|apply gclosed_refl| |cbn [s_ncalls nsg filter length]; lia].
+    econstructor; [reflexivity|reflexivity|apply gclosed_refl| |cbn [s_ncalls nsg filter length]; lia|intros _; reflexivity].
     destruct Hinv as (Hcfg & Hg). unfold ginv. cbn [s_cfg s_exists s_half]. rewrite Hcfg. split; [reflexivity|exact Hg].
   - cbn [hop_okb] in Hok.
     destruct (assemble_ok (rnote (gnote (glive g) true) (rbase g R0) 0 n) S i c st
@@ -1136,7 +1226,7 @@ Proof.
       split; [reflexivity|]. split; [reflexivity|]. split; [lia|]. split; [lia|]. split; [lia|].
       split; [intros Hc; discriminate|]. split; [apply syn_seq|intros; reflexivity]. }
     { reflexivity. }
-    cbn [g_syn] in Hg. econstructor; [exact He|exact Hg|apply gclosed_refl|exact Hi|exact Hnc].
+    cbn [g_syn] in Hg. econstructor; [exact He|exact Hg|apply gclosed_refl|exact Hi|exact Hnc|intros _; reflexivity].
   - cbn [hop_okb] in Hok.
     destruct (assemble_ok (rnote (gnote (glive g) false) (rbase g R0) o n) S i c st
                 (mkSeg (sq i o) false fin rst false ts (sub S o n)) g o n R0 HS Hinv)
@@ -1145,9 +1235,13 @@ Proof.
       split; [reflexivity|]. split; [reflexivity|]. split; [lia|]. split; [lia|]. split; [lia|].
       split; [intros Hf; subst fin; cbn [negb orb] in Hok; lia|]. split; [reflexivity|intros Hc; discriminate]. }
     { reflexivity. }
-    cbn [g_syn] in Hg. econstructor; [exact He|exact Hg|apply gclosed_refl|exact Hi|exact Hnc].
+    cbn [g_syn] in Hg. econstructor; [exact He|exact Hg|apply gclosed_refl|exact Hi|exact Hnc|intros _; reflexivity].
   - rewrite gnote_false. apply flush_opts_gen; assumption.
-  - rewrite gnote_false. apply flush_all_gen; assumption.
+  - rewrite gnote_false.
+    destruct (flush_all_gen R0 S i c false st g HS Hinv) as [st' ev gm g' He Hg Hgc Hi Hnc _].
+    assert (Hd : g' = GDead) by (eapply flush_all_dead; [exact He|exact Hi]). subst g'.
+    assert (gm = GDead) by (destruct Hgc as [H|(k & _ & H)]; [symmetry; exact H|discriminate]). subst gm.
+    econstructor; [exact He|exact Hg|apply gclosed_refl|exact Hi|exact Hnc|intros _; reflexivity].
 Qed.
 
 (* the trace of a history, read with the abstract state and the received ranges *)
@@ -1156,9 +1250,10 @@ Fixpoint gtrace (S : list Z) (c : cfg) (g : gst) (R0 : list (Z * Z)) (nc : nat) 
   match hs, tr with
   | [], [] => True
   | h :: hs', (ev, _) :: tr' =>
-    exists gm g', gevs (rstep g R0 h) S (cfg_after c h) (allow_of (cfg_after c h) h) (syn_of h) nc (gnote g (syn_of h)) ev gm /\
-                  gclosed gm g' /\ (h = HFlushAll -> g' = GDead) /\
-                  gtrace S (cfg_after c h) g' (rstep g R0 h) (nc + nsg ev)%nat hs' tr'
+    exists g', gevs (rstep g R0 h) S (cfg_after c h) (allow_of (cfg_after c h) h) (syn_of h) nc (gnote g (syn_of h)) ev g' /\
+               (h = HFlushAll -> g' = GDead) /\
+               (nonew ev \/ (g = GDead /\ is_seg h = true /\ exists sid rest, ev = ENew sid :: rest /\ nonew rest)) /\
+               gtrace S (cfg_after c h) g' (rstep g R0 h) (nc + nsg ev)%nat hs' tr'
   | _, _ => False
   end.
 
@@ -1168,10 +1263,16 @@ Lemma run_gtrace : forall S i hs c st g R0,
 Proof.
   intros S i. induction hs as [|h t IH]; intros c st g R0 HS Hinv Hok; cbn [map run_trace gtrace]; [exact I|].
   cbn [forallb] in Hok. apply andb_prop in Hok. destruct Hok as (Ho1 & Ho2).
-  destruct (hop_step S i c st g h R0 HS Hinv Ho1) as [st' ev gm g' He Hg Hgc Hi Hnc].
-  rewrite He. exists gm, g'. split; [exact Hg|]. split; [exact Hgc|]. split.
+  destruct (hop_step S i c st g h R0 HS Hinv Ho1) as [st' ev gm g' He Hg Hgc Hi Hnc Hns].
+  specialize (Hns I). subst gm.
+  rewrite He. exists g'. split; [exact Hg|]. split.
   - intros Hh. subst h. cbn [op_of step] in He. eapply flush_all_dead; [exact He|exact Hi].
-  - rewrite <- Hnc. apply IH; assumption.
+  - split; [|rewrite <- Hnc; apply IH; assumption].
+    pose proof (step_nonew fullv st (op_of S i h)) as Hn. rewrite He in Hn. cbn [fst snd] in Hn.
+    destruct Hn as [Hn|(sid & rest & H1 & H2 & H3 & gg & H4)]; [left; exact Hn|right].
+    split.
+    + destruct g as [|kn en]; [reflexivity|]. destruct Hinv as (_ & Hx & _). congruence.
+    + split; [destruct h; cbn [op_of] in H4; try discriminate; reflexivity|eauto].
 Qed.
 
 (* every history: no panic (the trace has one entry per operation) and the events are legal *)
